@@ -209,7 +209,9 @@ pub fn run(ctx: &mut Ctx, prop: &str) {
                 if *lit != format!("'{t}'") { ctx.oracle_fail("the literal written for a bound date / time / uuid / network value is not the quoted canonical text of that value", serde_json::json!({"backend": b.name(), "expected": format!("'{t}'"), "literal": lit})); }
                 continue;
             }
-            let want = match v { sea_query::Value::String(Some(s)) => s.to_string(), sea_query::Value::Char(Some(c)) => c.to_string(), _ => continue };
+            let want = match v { sea_query::Value::String(Some(s)) => s.to_string(), sea_query::Value::Char(Some(c)) => c.to_string(),
+                // a JSON value is written as the string literal of its serialised document
+                sea_query::Value::Json(Some(j)) => j.to_string(), _ => continue };
             if want.contains('\0') { continue; }
             ctx.count("c02.literals_decoded");
             match reflex::lex(b, lit) {
